@@ -158,7 +158,7 @@ package codegen
 //@ opaque func validProd(p int32) bool = 0 < p && p < 2147483647 && p < len(_termCounts) && len(_rules) == len(_termCounts) && _termCounts[p] >= 0
 //@ opaque func wfActionsRow(s int32) bool = forall k int :: {rowVal(_actions, s, k)} 0 <= k && k < rowLen(_actions, s) ==> ((rowVal(_actions, s, k) == 2147483647 ==> rowKey(_actions, s, k) == 0) && (0 <= rowVal(_actions, s, k) && rowVal(_actions, s, k) < 2147483647 ==> validState(rowVal(_actions, s, k)) && (forall p int32, d int :: {item(rowVal(_actions, s, k), p, d)} d > 0 && item(rowVal(_actions, s, k), p, d) ==> item(s, p, d - 1))) && (rowVal(_actions, s, k) < 0 ==> validProd(0 - rowVal(_actions, s, k)) && item(s, 0 - rowVal(_actions, s, k), _termCounts[0 - rowVal(_actions, s, k)])))
 //@ opaque func wfGotoRow(s int32) bool = (forall k int :: {rowVal(_goto, s, k)} 0 <= k && k < rowLen(_goto, s) ==> validState(rowVal(_goto, s, k)) && (forall p int32, d int :: {item(rowVal(_goto, s, k), p, d)} d > 0 && item(rowVal(_goto, s, k), p, d) ==> item(s, p, d - 1))) && (forall p int32 :: {item(s, p, 0)} item(s, p, 0) && validProd(p) ==> exists k int :: 0 <= k && k < rowLen(_goto, s) && rowKey(_goto, s, k) == _rules[p])
-//@ opaque func wfTables() bool = 1 <= nStates() && validState(0) && (forall p int32, d int :: {item(0, p, d)} item(0, p, d) ==> d == 0) && (forall s int32 :: {validState(s)} validState(s) ==> wfActionsRow(s) && wfGotoRow(s))
+//@ opaque func wfTables() bool = 1 <= nStates() && validState(0) && (forall p int32, d int :: {item(0, p, d)} item(0, p, d) ==> d == 0) && (forall s int32, p int32, d int :: {item(s, p, d)} item(s, p, d) ==> d >= 0) && (forall s int32 :: {validState(s)} validState(s) ==> wfActionsRow(s) && wfGotoRow(s))
 //
 //@ pure func lrStack(st _Stack[_item]) bool = len(st) >= 1 && (forall k int :: {st[k]} 0 <= k && k < len(st) ==> validState(st[k].State)) && (forall k int, p int32, d int :: {item(st[k].State, p, d)} 0 <= k && k < len(st) && item(st[k].State, p, d) ==> 0 <= d && d <= k && item(st[k - d].State, p, 0))
 //   the lookahead symbol is a Token, or an Error exactly when the lookahead is ERROR
@@ -212,3 +212,24 @@ package codegen
 //@   loop 2 invariant base(p._stack) == base(save) && off(p._stack) == off(save) && len(p._stack) <= len(save) && cap(p._stack) == cap(save) && (forall k int :: {p._stack[k]} 0 <= k && k < len(p._stack) ==> p._stack[k] == save[k])
 //@   loop 3 invariant p == old(p) && !isnil(p._lex) && p._lex == old(p._lex) && lrStack(save) && save[0].State == 0 && (p._qla == -1 || laOK(p._qla, p._qlasym)) && laOK(p._la, p._lasym) && unchangedOld(elems(_item)) && unchangedOld(elems(int32)) && unchangedOld(fields(fxParser), *p)
 //@   loop 3 invariant base(p._stack) == base(save) && off(p._stack) == off(save) && 1 <= len(p._stack) && len(p._stack) <= len(save) && cap(p._stack) == cap(save) && validState(state) && (forall k int :: {p._stack[k]} 0 <= k && k < len(p._stack) ==> p._stack[k] == save[k])
+//
+// _act dispatches to the user's action methods. Its contract is assumed for the driver
+// proof: it needs the production's terms on the stack and leaves stack and lexer alone
+// (actions may queue a lookahead through recoverLookahead).
+//@ func @._act
+//@   trusted
+//@   requires !isnil(p) && validProd(prod) && _termCounts[prod] < len(p._stack)
+//@   ensures p._stack == old(p._stack) && p._lex == old(p._lex)
+//@   ensures laOK(p._la, p._lasym) && (p._qla == -1 || laOK(p._qla, p._qlasym))
+//@   modifies *p
+//
+//@ func @.parse
+//@   requires !isnil(p) && !isnil(lex) && wfTables() && len(p._stack) == 0
+//@   ensures p._lex == lex
+//@   modifies *p, elems(int), elems(_item)
+//@   let okStack = lrStack(p._stack) && p._stack[0].State == 0 && (p._qla == -1 || laOK(p._qla, p._qlasym))
+//@   loop 0 invariant p == old(p) && lex == old(lex) && p._lex == lex && laOK(p._la, p._lasym) && (p._qla == -1 || laOK(p._qla, p._qlasym))
+//@   loop 0 invariant len(p._stack) >= 1 && p._stack[0].State == 0
+//@   loop 0 invariant forall k int :: {p._stack[k]} 0 <= k && k < len(p._stack) ==> validState(p._stack[k].State)
+//@   loop 0 invariant forall k int, q int32, d int :: {item(p._stack[k].State, q, d)} 0 <= k && k < len(p._stack) && item(p._stack[k].State, q, d) ==> 0 <= d && d <= k && item(p._stack[k - d].State, q, 0)
+//@   loop 0 invariant unchangedOld(elems(int32)) && unchangedOld(fields(fxParser), *p)
